@@ -143,6 +143,15 @@ func (vc *VC) script(o *Obligation) string {
 		b.WriteString(d)
 		b.WriteByte('\n')
 	}
+	for ref, k := range vc.bigConsts {
+		// package-level big.Int constants (initialised by big.NewInt(k) in init and never written)
+		for _, d := range vc.constDecls {
+			if strings.HasPrefix(d, "(declare-const |P:math/big.Int!e") {
+				name := strings.Fields(d)[1]
+				fmt.Fprintf(&b, "(assert (and (> %s 0) (= (select %s %s) %d)))\n", ref, name, ref, k)
+			}
+		}
+	}
 	for _, c := range vc.sentinels {
 		if c.T.K == SIface {
 			fmt.Fprintf(&b, "(assert (and (> (ityp %s) 0) (> (iref %s) 0)))\n", c.S, c.S)
@@ -152,7 +161,16 @@ func (vc *VC) script(o *Obligation) string {
 	}
 	if len(vc.sentinels) > 1 {
 		var rs []string
-		for _, c := range vc.sentinels {
+		for ref, k := range vc.bigConsts {
+		// package-level big.Int constants (initialised by big.NewInt(k) in init and never written)
+		for _, d := range vc.constDecls {
+			if strings.HasPrefix(d, "(declare-const |P:math/big.Int!e") {
+				name := strings.Fields(d)[1]
+				fmt.Fprintf(&b, "(assert (and (> %s 0) (= (select %s %s) %d)))\n", ref, name, ref, k)
+			}
+		}
+	}
+	for _, c := range vc.sentinels {
 			if c.T.K == SIface {
 				rs = append(rs, "(iref "+c.S+")")
 			} else {
